@@ -3,7 +3,7 @@
   Property theorems only (helpers: Gts/Lemmas/ParsSafe*.lean, Fuel.lean, Date.lean, SelShift.lean;
   regenerated tables: Gts/Bridge/Tables.lean; panic-site inventory: Gts/Bridge/PanicSites.lean).
 
-  What is proved here, for ALL byte strings, about the hand-written models of the string parsers
+  What is proved here, for ALL byte strings, about the hand-written models of the STRING parsers
   (`gts.AsLocation` / `ParseLocation`, `AsModifier`, `tryLocation` / `AsLocator`,
   `shiftSelector` / `Selector`, `seqio.AsDate`, `gts.AsMolecule`, `gts.AsTopology`):
 
@@ -22,15 +22,43 @@
   * ERRORS ARE VALUES.  `asDate` accepts exactly calendar dates and reads back every date stamp
     the writer prints.
 
+  THE RECORD SCANNERS (`seqio.GenBankParser` with `genbankLocusParser`, every field sub-parser,
+  `tryAllParsers`, the ORIGIN reader, `INSDCTableParser`; model: Gts/Model/GenBankParse.lean,
+  InsdcParse.lean, Origin.lean; lemmas: Gts/Lemmas/ParsSorted.lean, GbSafe*.lean, GbFuel.lean,
+  GbOriginDecode.lean, FastaScan.lean):
+
+  * NO PANIC, for every byte string shorter than 10^9 bytes, from every sorted state
+    (`genbankParser_nopanic_partial`, `readAll_nopanic_partial`, `table_nopanic`,
+    `originField_nopanic`, `validateOrigin_nopanic`).  The field parsers `Clear` the stack and `Pop`
+    frames that are not theirs, so the frame invariant `Fr` of the string parsers is replaced by
+    the S-invariant "all saved positions sorted and bounded" (`Fr L [] 0`); `patchFrames` (the
+    DEFINITION body joined in place) keeps every frame's length because the LOCUS parser reports
+    an indent of at least five columns.  The ORIGIN reader's three panic sites need the range check
+    of `GenBankParser` and `length < 10^9`, which follows from the bytes left.
+  * INTERNAL CONSISTENCY (`genbank_length_consistent`, `genbank_sequence_decodes`,
+    `originField_decodes`, `accepted_block_is_written`): a returned record has
+    declared length = `Origin.Len()` = number of residues `Origin.Bytes()` decodes (no panic), or
+    no sequence at all next to a CONTIG line.
+  * FUEL (`bodyMore_fuel_stable`, `taxonMore_fuel_stable`, `dblinkMore_fuel_stable`,
+    `parseAll_fuel_stable_partial`, `recordLoop_fuel_partial`).
+
   PARTIAL, named as such (DESIGN.md section 6, C07):
   * "time proportional to the input" is NOT a Lean theorem.  What is proved is termination with an
     explicit measure; no step count is stated.
   * stack exhaustion of the Go run time on deeply nested `complement(` and the memory held by
     leaked `Push` frames are below the level of the model; they are covered by the depth sweep of
     the harness (recorded in the evidence), not by a theorem.
-  * the GenBank / FASTA record scanners are not modelled here (C01 models the record): for them C07
-    rests on the panic-site inventory and on the never-panic / never-hang / internal-consistency
-    oracle of the harness.
+  * the bound of 10^9 bytes on the record scanner's input is needed: beyond it `validateOrigin`
+    indexes past its buffer on a well-formed block (`validateOrigin_wide_index_panics`; a finding
+    about the code, it needs more than a gigabyte of input).
+  * the fuel `2n+2` of the record loop is NOT adequate in general (`recordLoop_fuel_full_refuted`):
+    leaked location-parser frames plus a SOURCE field without ORGANISM make the scanner re-read
+    lines, quadratically often (a finding about the code: a 28 KB record takes 22 s).  Proved
+    instead: running out of fuel can only show up as the error value.  The loops of the qualifier
+    and feature-table readers (`qualifiers`, `tableMore`, `literalMore`) and `refSubfields` have
+    no fuel theorem.
+  * the FASTA scanner is covered on its modelled fragment (`fasta_scan_nopanic`); K7C is about
+    content, not panics.
 -/
 import Gts.Lemmas.Fuel
 import Gts.Lemmas.Date
@@ -38,6 +66,9 @@ import Gts.Lemmas.SelShift
 import Gts.Model.MolTop
 import Gts.Bridge.Tables
 import Gts.Bridge.PanicSites
+import Gts.Lemmas.GbFuel
+import Gts.Lemmas.GbOriginDecode
+import Gts.Lemmas.FastaScan
 namespace Gts.C07
 open Gts Pars
 
@@ -251,5 +282,305 @@ example : (MolTop.asTopology ([67, 73, 82, 67, 85, 76, 65, 82])).toOption = some
     cls (MolTop.asTopology ([114, 105, 110, 103])) = 1 ∧
     (MolTop.asMolecule ([115, 115, 45, 68, 78, 65])).toOption = some ([115, 115, 45, 68, 78, 65]) ∧
     cls (MolTop.asMolecule ([100, 110, 97])) = 1 := by decide
+
+/-! ## the GenBank record scanner (`seqio.GenBankParser`, `INSDCTableParser`, the ORIGIN reader) -/
+
+open GenBank in
+/-- `INSDCTableParser("")` (with `gts.ParseLocation`, the qualifier parsers and the learning of
+unknown qualifier names), entered in ANY state whose saved positions are sorted, for ANY bytes and
+any registry: never a panic, and the final state is sorted again. -/
+theorem table_nopanic (reg : GenBank.Registry) (s : PS) (hs : Sorted s.rest.length s.stk) :
+    ((GenBank.table reg).run' s).1 ≠ .error .panic ∧
+      Sorted ((GenBank.table reg).run' s).2.rest.length ((GenBank.table reg).run' s).2.stk := by
+  obtain ⟨L, h⟩ := GenBank.exists_bound s hs
+  have := GenBank.table_safeS (L := L) reg s h
+  exact ⟨this.1, this.2.srt⟩
+
+/-- non-vacuity of `table_nopanic`: a state in the middle of a record, with a saved position at the
+start of the FEATURES line, is sorted (the table parser itself runs `LocParse.loc`, which the
+kernel cannot evaluate; its results on concrete tables are correspondence-checked by `table.parse`) -/
+example : let rest := GenBank.bs "     source          1..4\n                     /mol_type=\"genomic DNA\"\n"
+    Sorted (PS.mk rest [GenBank.bs "FEATURES             Location/Qualifiers\n" ++ rest]).rest.length
+      (PS.mk rest [GenBank.bs "FEATURES             Location/Qualifiers\n" ++ rest]).stk := by
+  refine ⟨?_, trivial⟩
+  decide +kernel
+
+/-- `validateOrigin(p, length)` indexes `p` without bounds checks.  For a declared length below
+10^9 and a buffer of at least `toOriginLength(length)` bytes (the reader hands it exactly that
+many) no index is out of range, whatever the bytes are. -/
+theorem validateOrigin_nopanic (p : Bytes) (length : Nat) (hL : length < 10 ^ 9)
+    (hp : (Origin.toOriginLength (length : Int)).toNat ≤ p.length) :
+    Origin.validateOrigin p (length : Int) ≠ .error .panic :=
+  Origin.validateOrigin_ne_panic p length hL (by rwa [Origin.toNat_tl] at hp)
+
+/-- the bound `length < 10^9` of `validateOrigin_nopanic` cannot be dropped: for a declared length
+of 1000000021 the last line index has ten digits; in its last round (`i = 1000000020`, one residue
+to go) the loop of `validateOrigin` stands before the last `toOriginLength(1) = 12` bytes of its
+buffer, and on the well-formed line `1000000021 a` (ten digits, a blank, the residue: twelve bytes)
+`p[offset] != '\n'` indexes one byte past the end: a run-time panic. -/
+theorem validateOrigin_wide_index_panics :
+    Origin.validateLines 1000000021 1 1000000020 (GenBank.bs "1000000021 a") = .error .panic ∧
+      (GenBank.bs "1000000021 a").length = (Origin.toOriginLength (1000000021 - 1000000020)).toNat := by
+  decide +kernel
+
+/-- the ORIGIN reader `makeGenbankOriginParser(length)` for a declared length that passed the
+range check of `GenBankParser` (`0 ≤ length`), from any sorted state with fewer than 10^9 bytes
+left, for any bytes: never a panic (not the negative `Request`, not `validateOrigin`'s indexing,
+not the slow path's `p[offset] = '\n'`), and the final state is sorted. -/
+theorem originField_nopanic (length : Int) (depth : Nat) (h0 : 0 ≤ length) (s : PS)
+    (hs : Sorted s.rest.length s.stk) (hb : ∀ f ∈ s.stk, f.length < 10 ^ 9)
+    (hlen : s.rest.length < 10 ^ 9) :
+    ((GenBank.originField length depth).run' s).1 ≠ .error .panic ∧
+      Sorted ((GenBank.originField length depth).run' s).2.rest.length
+        ((GenBank.originField length depth).run' s).2.stk := by
+  have h : Fr (10 ^ 9 - 1) [] 0 s :=
+    Fr.mk0 (fun f hf => by have := hb f hf; omega) (by omega) hs
+  have := GenBank.originField_safeS (L := 10 ^ 9 - 1) length depth h0 (by omega) s h
+  exact ⟨this.1, this.2.srt⟩
+
+/- FULL statement (the target), which is FALSE for the code as it is:
+
+     theorem genbankParser_nopanic (reg) (s : PS) (hs : Sorted s.rest.length s.stk) :
+         ((GenBank.genbankParser reg).run' s).1 ≠ .error .panic
+
+   What is missing: the bound on the input size below.  `validateOrigin` assumes that the line
+   index `fmt.Sprintf("%9d", i+1)` is nine columns wide.  For a declared length of at least
+   10^9 + 21 the last line indices have ten digits; on a WELL-FORMED block of that size every line
+   from there on is one byte longer than `toOriginLength` accounts for, and `p[offset] != '\n'`
+   (genbank_subparsers.go:404) indexes past the end of the requested buffer: a run-time panic.
+   The input needed has more than 1.2 * 10^9 bytes, so the guard is an explicit bound on the bytes
+   left; everything below it is proved for EVERY byte string. -/
+
+/-- `seqio.GenBankParser`, entered in ANY state whose saved positions are sorted (in particular
+the fresh state of a scanner) with fewer than 10^9 bytes left, for ANY bytes and any qualifier
+registry: never a panic — neither the `Trail` slice panic (LOCUS line, field names and bodies,
+`tryAllParsers` with its Push / Pop / Drop / Clear traffic, the in-place joined DEFINITION body,
+the feature table) nor one of the ORIGIN reader's — and the final state is sorted and not before
+the entry position. -/
+theorem genbankParser_nopanic_partial (reg : GenBank.Registry) (s : PS)
+    (hs : Sorted s.rest.length s.stk) (hlen : s.rest.length < 10 ^ 9) :
+    ((GenBank.genbankParser reg).run' s).1 ≠ .error .panic ∧
+      Sorted ((GenBank.genbankParser reg).run' s).2.rest.length
+        ((GenBank.genbankParser reg).run' s).2.stk ∧
+      ((GenBank.genbankParser reg).run' s).2.rest.length ≤ s.rest.length :=
+  GenBank.genbankParser_wp reg s hs hlen
+
+/-- … in particular on the fresh state of `pars.FromBytes(input)`, for EVERY byte string shorter
+than 10^9 bytes. -/
+theorem genbankParser_fresh_nopanic_partial (reg : GenBank.Registry) (input : Bytes)
+    (hlen : input.length < 10 ^ 9) :
+    ((GenBank.genbankParser reg).run' ⟨input, []⟩).1 ≠ .error .panic :=
+  (GenBank.genbankParser_wp reg ⟨input, []⟩ trivial hlen).1
+
+/- FULL statement: `theorem readAll_nopanic (reg) (input) : GenBank.readAll reg input ≠ none`;
+   missing for the same reason as above. -/
+
+/-- Scanning ANY byte stream shorter than 10^9 bytes as GenBank (record after record until the
+input is used up or a record fails) never panics. -/
+theorem readAll_nopanic_partial (reg : GenBank.Registry) (input : Bytes)
+    (hlen : input.length < 10 ^ 9) : GenBank.readAll reg input ≠ none :=
+  GenBank.parseAll_ne_none _ reg input [] hlen
+
+/-- the LOCUS length of the record that starts at `s`, as `genbankLocusParser` reads it
+(specification helper: re-reads the LOCUS line, nothing else) -/
+def declaredLength (s : PS) : Option Int :=
+  match (GenBank.locusParser.run' s).1 with
+  | .ok l => some l.length
+  | .error _ => none
+
+/-- INTERNAL CONSISTENCY: whenever `GenBankParser` returns a record, the LOCUS line was readable,
+the declared length is not negative, and the sequence returned has exactly the declared number of
+residues (`Origin.Len()`), or there is no sequence at all next to a CONTIG line.  A truncated,
+over-long or otherwise inconsistent ORIGIN block is never returned as a shortened sequence. -/
+theorem genbank_length_consistent (reg : GenBank.Registry) (s : PS) (r : GenBank.Record)
+    (reg' : GenBank.Registry) (s' : PS)
+    (h : (GenBank.genbankParser reg).run' s = (.ok (r, reg'), s')) :
+    ∃ n, declaredLength s = some n ∧ 0 ≤ n ∧
+      (r.origin.len = n ∨ (r.origin.len = 0 ∧ r.fields.contigAcc ≠ [])) := by
+  obtain ⟨l, s1, hl, h0, hc⟩ := GenBank.genbankParser_length reg s r reg' s' h
+  refine ⟨l.length, ?_, h0, hc⟩
+  unfold declaredLength
+  rw [hl]
+
+/-- a four-residue record, used below -/
+def sampleRecord : Bytes :=
+  GenBank.bs "LOCUS       X 4 bp DNA linear UNA 01-JAN-2000\nDEFINITION  d.\nORIGIN      \n        1 acgt\n//\n"
+
+/-- non-vacuity: the sample record (fresh state: sorted, 88 bytes) is accepted with `Len() = 4`
+= the declared length; with one residue missing, one too many or a negative length the same text
+is an error value (class 1), not a panic and not a shorter sequence; two records in one stream are
+both read -/
+example : Sorted (PS.mk sampleRecord []).rest.length (PS.mk sampleRecord []).stk ∧
+    sampleRecord.length < 10 ^ 9 ∧
+    ((GenBank.genbankParser GenBank.Registry.default).run' ⟨sampleRecord, []⟩).1.toOption.map
+      (fun r => r.1.origin.len) = some 4 ∧
+    declaredLength ⟨sampleRecord, []⟩ = some 4 ∧
+    cls ((GenBank.genbankParser GenBank.Registry.default).run' ⟨GenBank.bs
+      "LOCUS       X 4 bp DNA linear UNA 01-JAN-2000\nORIGIN      \n        1 acg\n//\n", []⟩).1 = 1 ∧
+    cls ((GenBank.genbankParser GenBank.Registry.default).run' ⟨GenBank.bs
+      "LOCUS       X 4 bp DNA linear UNA 01-JAN-2000\nORIGIN      \n        1 acgta\n//\n", []⟩).1 = 1 ∧
+    cls ((GenBank.genbankParser GenBank.Registry.default).run' ⟨GenBank.bs
+      "LOCUS       X -4 bp DNA linear UNA 01-JAN-2000\nORIGIN      \n        1 acgt\n//\n", []⟩).1 = 1 ∧
+    cls ((GenBank.genbankParser GenBank.Registry.default).run' ⟨GenBank.bs
+      "LOCUS       X 4 bp DNA linear UNA 01-JAN-2000\n//\n", []⟩).1 = 1 ∧
+    (GenBank.readAll GenBank.Registry.default (sampleRecord ++ sampleRecord)).map
+      (fun r => (r.1.length, r.2.2)) = some (2, true) := by
+  refine ⟨trivial, ?_⟩
+  decide +kernel
+
+/-! ## the sequence of an accepted record decodes to the declared number of residues -/
+
+/-- `validateOrigin` accepts nothing but written blocks: a buffer of `toOriginLength(L)` bytes
+that it accepts (`L < 10^9`) is byte for byte the block `NewOrigin` writes for `L` printable
+residues … -/
+theorem accepted_block_is_written (b : Bytes) (L : Nat) (hL : L < 10 ^ 9)
+    (hb : b.length = (Origin.toOriginLength (L : Int)).toNat)
+    (h : Origin.validateOrigin b (L : Int) = .ok ()) :
+    ∃ p, b = Origin.originStream p ∧ (∀ c ∈ p, Origin.isBase c = true) ∧ p.length = L :=
+  Origin.validateOrigin_inv b L hL (by rw [hb, Origin.toNat_tl]) h
+
+/-- … and whatever the ORIGIN reader `makeGenbankOriginParser(length)` returns (fast or slow
+path, `0 ≤ length < 10^9`) is such a block: `Origin.Bytes()` on it does not panic and yields
+exactly `length` printable residues. -/
+theorem originField_decodes (length : Nat) (depth : Nat) (hL : length < 10 ^ 9) (s s' : PS)
+    (b : Bytes) (h : (GenBank.originField (length : Int) depth).run' s = (.ok b, s')) :
+    ∃ p, Origin.originBytes b = .ok p ∧ p.length = length ∧ (∀ c ∈ p, Origin.isBase c = true) ∧
+      b = Origin.originStream p := by
+  have := GenBank.originField_accepted length depth hL s
+  unfold WP at this
+  rw [h] at this
+  obtain ⟨hv, hl⟩ := this b rfl
+  exact Origin.accepted_decodes b length hL hl hv
+
+/-- INTERNAL CONSISTENCY, residues: every record `GenBankParser` returns whose LOCUS line declares
+fewer than 10^9 residues carries a sequence that `Origin.Bytes()` decodes WITHOUT a panic to
+exactly `Origin.Len()` residues, all printable — together with `genbank_length_consistent`:
+declared length = `Len()` = number of residues (or no sequence next to a CONTIG line). -/
+theorem genbank_sequence_decodes (reg : GenBank.Registry) (s : PS) (r : GenBank.Record)
+    (reg' : GenBank.Registry) (s' : PS)
+    (h : (GenBank.genbankParser reg).run' s = (.ok (r, reg'), s')) :
+    ∃ n, declaredLength s = some n ∧ (n < 10 ^ 9 →
+      ∃ p, r.origin.bytes = .ok p ∧ (p.length : Int) = r.origin.len ∧
+        ∀ c ∈ p, Origin.isBase c = true) := by
+  obtain ⟨l, s1, hl, hd⟩ := GenBank.genbankParser_decodes reg s r reg' s' h
+  refine ⟨l.length, ?_, hd⟩
+  unfold declaredLength
+  rw [hl]
+
+/-- non-vacuity: the sample record's sequence decodes to `acgt`; the block of the sample is
+accepted by `validateOrigin` for `L = 4` and has `toOriginLength 4 = 15` bytes -/
+example : ((GenBank.genbankParser GenBank.Registry.default).run' ⟨sampleRecord, []⟩).1.toOption.map
+      (fun r => r.1.origin.bytes) = some (.ok [97, 99, 103, 116]) ∧
+    Origin.validateOrigin (GenBank.bs "        1 acgt\n") 4 = .ok () ∧
+    (GenBank.bs "        1 acgt\n").length = (Origin.toOriginLength 4).toNat ∧
+    ((GenBank.originField 4 12).run' ⟨GenBank.bs "ORIGIN      \n        1 acgt\n//\n", []⟩).1 =
+      .ok (GenBank.bs "        1 acgt\n") := by
+  decide +kernel
+
+/-! ## the loops of the GenBank reader: fuel ("never hangs") -/
+
+/- FULL statement (same shape as `loc_fuel_stable`), which is FALSE:
+
+     theorem recordLoop_fuel_stable (length depth sub) (s : PS) (hs : Sorted s.rest.length s.stk)
+         (n m : Nat) (hn : 2 * s.rest.length + 2 ≤ n) (hnm : n ≤ m) :
+         (recordLoop length depth n sub).run' s = (recordLoop length depth m sub).run' s
+
+   The loop of `GenBankParser` does NOT consume input in every iteration: a SOURCE field without
+   ORGANISM pops the frame of `tryAllParsers` AND one more saved position; if a failing location
+   parser inside the feature table has leaked frames, that position lies BEFORE the current one
+   and the lines in between are read again, once per leaked frame.  The number of iterations is
+   quadratic in the input size (`join(join(…(1^3` leaks one frame per five bytes).  On the real
+   code a 28 KB record of that shape takes 22 s (measured; ten times the size, a hundred times as
+   long).  Refuted below from a
+   sorted state; from the FRESH state the model shows the same on
+   `FEATURES⏎a 1⏎a join(×20 1^3⏎ (x⏎)×20 SOURCE      x⏎//⏎` (176 bytes, 422 iterations against a
+   fuel of 354; evaluated with `#eval`, not a theorem: the kernel cannot run the well-founded
+   `LocParse.loc`).  On this family the model (out of fuel) and the code (hard failure at the last
+   reading of the SOURCE line) both end in an error. -/
+
+/-- the refuted full statement: from the sorted state `GenBank.rescanState` (37 bytes left: twenty
+empty lines and a SOURCE field without ORGANISM; three saved copies of that position) fuel
+`76 = 2·37+2` and fuel `200` end in different states -/
+theorem recordLoop_fuel_full_refuted :
+    ¬ ∀ (length : Int) (depth : Nat) (sub : GenBank.Sub) (s : PS), Sorted s.rest.length s.stk →
+      ∀ n m, 2 * s.rest.length + 2 ≤ n → n ≤ m →
+        (GenBank.recordLoop length depth n sub).run' s =
+          (GenBank.recordLoop length depth m sub).run' s :=
+  GenBank.recordLoop_fuel_refuted
+
+/-- what holds of the record loop's fuel: running out of it can only ever show up as the error
+value.  An outcome other than that error — a record, or a panic — and its final state are the
+same for every larger fuel: no record is ever lost or altered by the fuel. -/
+theorem recordLoop_fuel_partial (length : Int) (depth : Nat) (k m : Nat) (sub : GenBank.Sub)
+    (s s' : PS) (r : Except Err GenBank.Sub)
+    (h : (GenBank.recordLoop length depth k sub).run' s = (r, s')) (hr : r ≠ .error .fail)
+    (hkm : k ≤ m) : (GenBank.recordLoop length depth m sub).run' s = (r, s') :=
+  GenBank.recordLoop_mono length depth k sub s r s' h hr m hkm
+
+/-- the continuation-line loop of `genbankFieldBodyParser` (indent `depth ≥ 1`; the LOCUS parser
+reports `depth ≥ 5`): every iteration consumes the indent, so with more fuel than bytes left the
+outcome and the final state do not depend on the fuel -/
+theorem bodyMore_fuel_stable (depth : Nat) (sep : UInt8) (hd : 1 ≤ depth) (n m : Nat)
+    (acc : Bytes) (k : Nat) (s : PS) (hn : s.rest.length < n) (hm : s.rest.length < m) :
+    (GenBank.bodyMore depth sep n acc k).run' s = (GenBank.bodyMore depth sep m acc k).run' s :=
+  GenBank.bodyMore_fuel depth sep hd n m acc k s hn hm
+
+/-- the taxonomy lines of SOURCE / ORGANISM: same measure -/
+theorem taxonMore_fuel_stable (depth : Nat) (hd : 1 ≤ depth) (n m : Nat) (acc : Bytes) (s : PS)
+    (hn : s.rest.length < n) (hm : s.rest.length < m) :
+    (GenBank.taxonMore depth n acc).run' s = (GenBank.taxonMore depth m acc).run' s :=
+  GenBank.taxonMore_fuel depth hd n m acc s hn hm
+
+/-- the further lines of DBLINK: same measure -/
+theorem dblinkMore_fuel_stable (depth : Nat) (hd : 1 ≤ depth) (n m : Nat) (f : GenBank.Fields)
+    (s : PS) (hn : s.rest.length < n) (hm : s.rest.length < m) :
+    (GenBank.dblinkMore depth n f).run' s = (GenBank.dblinkMore depth m f).run' s :=
+  GenBank.dblinkMore_fuel depth hd n m f s hn hm
+
+/-- a record that `GenBankParser` returns has consumed at least the five bytes of `LOCUS`
+(from any sorted state, fewer than 10^9 bytes left) … -/
+theorem genbankParser_consumes (reg : GenBank.Registry) (s : PS) (hs : Sorted s.rest.length s.stk)
+    (hlen : s.rest.length < 10 ^ 9) (v : GenBank.Record × GenBank.Registry)
+    (h : ((GenBank.genbankParser reg).run' s).1 = .ok v) :
+    ((GenBank.genbankParser reg).run' s).2.rest.length + 5 ≤ s.rest.length :=
+  GenBank.genbankParser_consumes reg s hs hlen v h
+
+/-- … so the scan loop's fuel `len(input) + 1` is adequate: any two fuels above the number of
+bytes give the same records (input shorter than 10^9 bytes; the bound is only there because the
+proof goes through the no-panic invariant). -/
+theorem parseAll_fuel_stable_partial (reg : GenBank.Registry) (input : Bytes)
+    (acc : List GenBank.Record) (n m : Nat) (hlen : input.length < 10 ^ 9)
+    (hn : input.length < n) (hm : input.length < m) :
+    GenBank.parseAll reg n input acc = GenBank.parseAll reg m input acc :=
+  GenBank.parseAll_fuel n m reg input acc hlen hn hm
+
+/-- non-vacuity: the refuting state is sorted and the two fuels are at least `2n+2`; in the sample
+record the body loop runs with `depth = 12`, and the scan loop on two records agrees for the
+fuels 177 and 1000 -/
+example : Sorted GenBank.rescanState.rest.length GenBank.rescanState.stk ∧
+    2 * GenBank.rescanState.rest.length + 2 ≤ 76 ∧
+    ((GenBank.recordLoop 0 12 76 GenBank.sub0).run' GenBank.rescanState).2.rest.length = 21 ∧
+    ((GenBank.recordLoop 0 12 200 GenBank.sub0).run' GenBank.rescanState).2.rest.length = 17 ∧
+    (GenBank.locusParser.run' ⟨sampleRecord, []⟩).1.toOption.map (·.depth) = some 12 ∧
+    (GenBank.parseAll GenBank.Registry.default 177 (sampleRecord ++ sampleRecord) []).map
+      (fun r => r.1.length) = some 2 ∧
+    (GenBank.parseAll GenBank.Registry.default 1000 (sampleRecord ++ sampleRecord) []).map
+      (fun r => r.1.length) = some 2 := by
+  refine ⟨⟨Nat.le_refl _, Nat.le_refl _, Nat.le_refl _, trivial⟩, ?_⟩
+  decide +kernel
+
+/-! ## FASTA streams -/
+
+/-- `seqio.NewScanner(seqio.FastaParser, r)` over ANY byte string, and `seqio.NewAutoScanner(r)`
+over any byte string that does not begin with `LOCUS` (the modelled fragment of the auto scanner;
+on `LOCUS…` it continues with `GenBankParser`, see `genbankParser_fresh_nopanic_partial`): the scan
+never reports a panic.  (Every single `FastaParser` call: `Gts.C17.parse_never_panics`.) -/
+theorem fasta_scan_nopanic (auto : Bool) (text : Bytes) : Fasta.scanAll auto text ≠ .panic :=
+  Fasta.scanAll_ne_panic auto text
+
+/-- non-vacuity: an arbitrary byte salad is scanned to an error, a two-record stream to its records -/
+example : Fasta.scanAll true [0, 255, 62, 10, 13] = .done [] false ∧
+    Fasta.scanAll false [62, 97, 10, 65, 67, 10, 62, 98, 10, 71, 10] =
+      .done [([97], [65, 67]), ([98], [71])] true := by decide +kernel
 
 end Gts.C07
